@@ -21,7 +21,8 @@ RULE = ("(1) histories of put/get/purge/clear/clock-advance/reopen/foreign-versi
         "cachingpolicy {0,1} x cache class x changed options with a counting store; non-trivial = history with a "
         "tear/expiry/foreign version, or any crash point; distinct = distinct histories / (entry, offset)"
         ' ; plus: a reference-holding cache, warm clients built with other binding-level options, cached documents with a childless root'
-        ' ; entries that open but fail at read, expired entries that cannot be deleted, a cache folder whose name holds glob metacharacters')
+        ' ; entries that open but fail at read, expired entries that cannot be deleted, a cache folder whose name holds glob metacharacters'
+        ' ; long reader-style ids sharing most of their characters')
 ASSUMPTIONS = ["pickle and expat reject every proper prefix and zero-filled prefix of an entry (validated by the sweep)",
                "hashlib.md5 does not collide on the URLs used"]
 PARTIAL = [{"theorem": "interleaved_get_sound", "missing": "under concurrent writers only 'a value some process stored "
